@@ -32,6 +32,7 @@ struct EntryCall
     int which;
     char *buf;
     size_t size; // snprintf only
+    int fd;      // fdprintf / vfdprintf only
     const char *fmt;
     template <class... A> int operator()(A... a)
     {
@@ -42,17 +43,17 @@ struct EntryCall
         case 1:
             return call_vsprintf(buf, fmt, a...);
         case 2:
-            return igc_fdprintf(7, fmt, a...);
+            return igc_fdprintf(fd, fmt, a...);
         case 4:
             return igc_snprintf(buf, size, fmt, a...);
         default:
-            return call_vfdprintf(7, fmt, a...);
+            return call_vfdprintf(fd, fmt, a...);
         }
     }
 };
-int run_entry(int which, char *buf, size_t size, const char *fmt, const Args &a)
+int run_entry(int which, char *buf, size_t size, int fd, const char *fmt, const Args &a)
 {
-    EntryCall c{which, buf, size, fmt};
+    EntryCall c{which, buf, size, fd, fmt};
     return dispatch(c, a);
 }
 
